@@ -60,7 +60,14 @@ def run_sankey(desc):
         excl_p = ["sysenv"]
     else:
         kw["exclude_processes"] = excl_p
-    fig = PlotlySankeyPlotter(**kw).plot()
+    plotter = PlotlySankeyPlotter(**kw)
+    fig = plotter.plot()
+    if desc.get("replot"):
+        # scenario loop: the system is recomputed (values rewritten in place) and the SAME plotter plots again
+        for i, f in enumerate(desc["flows"]):
+            flows[f["name"]].values[...] = flows[f["name"]].values * (i + 2) + 1.0
+            marrs[f["name"]] = marrs[f["name"]].map(lambda v, i=i: v * (i + 2) + 1.0)
+        fig = plotter.plot()
     sk = fig.data[0]
     node_labels = list(sk.node.label)
     # ---- model -----------------------------------------------------------------------
@@ -94,7 +101,7 @@ def run_sankey(desc):
         raise Violation("sankey-links-differ", f"missing {miss} unexpected {extra}; slice {slice_dict} excluded processes {excl_p} flows {excl_f}")
     n_shown = sum(exp.values())
     split = any(isinstance(f.get("color"), dict) for f in desc["flows"])
-    cl = [f"shown-links:{min(n_shown, 5)}"] + (["sliced"] if slice_dict else []) + (["split"] if split else []) + (["excluded-flows"] if excl_f else [])
+    cl = [f"shown-links:{min(n_shown, 5)}"] + (["replotted-after-change"] if desc.get("replot") else []) + (["sliced"] if slice_dict else []) + (["split"] if split else []) + (["excluded-flows"] if excl_f else [])
     return {"nontrivial": n_shown >= 2 and (bool(slice_dict) or split), "classes": cl}
 
 
@@ -126,7 +133,7 @@ def sankey_cases(draw):
     exclude_default = draw(st.booleans())
     excl_p = [] if exclude_default else draw(st.lists(st.sampled_from(procs), unique=True, max_size=2))
     excl_f = draw(st.lists(st.sampled_from([f["name"] for f in flows]), unique=True, max_size=2))
-    return {"universe": U, "procs": procs, "flows": flows, "slice": slice_dict, "exclude_default": exclude_default, "exclude_processes": excl_p, "exclude_flows": excl_f, "default_color": draw(st.sampled_from(COLORS))}
+    return {"replot": draw(st.sampled_from([False, False, True])), "universe": U, "procs": procs, "flows": flows, "slice": slice_dict, "exclude_default": exclude_default, "exclude_processes": excl_p, "exclude_flows": excl_f, "default_color": draw(st.sampled_from(COLORS))}
 
 
 class Sankey(Facet):
